@@ -9,6 +9,8 @@ import (
 	"os"
 	"regexp"
 	"strings"
+	"sync"
+	"sync/atomic"
 	"time"
 
 	"github.com/relex/gotils/logger"
@@ -234,6 +236,79 @@ func min(a, b int) int {
 	return b
 }
 
+// instancesChild: the agent builds one parseTime transform per pipeline and runs each on its own goroutine. Here G instances,
+// each on one goroutine, parse every offset in both notations (each in its own order, so the instances meet different suffixes
+// for the first time at the same moment), broken zones in between; every result is compared like in the sequential stages.
+func instancesChild(c *vkit.Ctx) {
+	const G = 12
+	var stamps []string
+	for _, sign := range []string{"+", "-"} {
+		for h := 0; h < 24; h++ {
+			for m := 0; m < 60; m++ {
+				stamps = append(stamps, fmt.Sprintf("2023-03-09T11:31:46.25%s%02d:%02d", sign, h, m), fmt.Sprintf("2023-03-09T11:31:46.250001%s%02d%02d", sign, h, m))
+			}
+		}
+	}
+	stamps = append(stamps, "2023-03-09T11:31:46Z", "2023-03-09T11:31:46+03", "2023-03-09T11:31:46+03:0", "2023-03-09T11:31:46+030", "")
+	passes := c.N(3, 20)
+	type bad struct{ fp, what, input string }
+	var mu sync.Mutex
+	var bads []bad
+	var total int64
+	c.LogCase(fmt.Sprintf("%d instances x %d passes x %d stamps", G, passes, len(stamps)))
+	var wg sync.WaitGroup
+	start := make(chan struct{})
+	for g := 0; g < G; g++ {
+		e := newEngine(c)
+		r := c.Rand("instances", g)
+		wg.Add(1)
+		go func(g int) {
+			defer wg.Done()
+			<-start
+			n := int64(0)
+			for p := 0; p < passes; p++ {
+				order := r.Perm(len(stamps))
+				for _, i := range order {
+					s := stamps[i]
+					want, ok := refParse(s)
+					got, errs, pan := e.run(s)
+					n++
+					var b *bad
+					switch {
+					case pan != nil:
+						b = &bad{"instances:panic", fmt.Sprintf("instance %d: parseTime panics on %q: %v", g, s, pan), s}
+					case ok && errs != 0:
+						b = &bad{"instances:rejected", fmt.Sprintf("instance %d: valid stamp %q counted as error", g, s), s}
+					case ok && !got.Equal(want):
+						b = &bad{"instances:inexact", fmt.Sprintf("instance %d: stamp %q: record time %s != denoted instant %s", g, s, got.UTC().Format(time.RFC3339Nano), want.UTC().Format(time.RFC3339Nano)), s}
+					case !ok && !got.Equal(e.fallback):
+						b = &bad{"instances:fallback-changed", fmt.Sprintf("instance %d: %q is not a stamp but the fallback time was replaced by %s", g, s, got), s}
+					case !ok && s != "" && errs != 1:
+						b = &bad{"instances:not-counted", fmt.Sprintf("instance %d: %q is not a stamp but %d errors were counted (want 1)", g, s, errs), s}
+					}
+					if b != nil {
+						mu.Lock()
+						if len(bads) < 20 {
+							bads = append(bads, *b)
+						}
+						mu.Unlock()
+					}
+				}
+			}
+			atomic.AddInt64(&total, n)
+		}(g)
+	}
+	close(start)
+	wg.Wait()
+	c.Eval(int(total))
+	c.Event("instances_stamps", int(total))
+	c.Event("instances_goroutines", G)
+	c.Nontrivial(fmt.Sprintf("instances:%d-at-once", G))
+	for _, b := range bads {
+		c.Violation(b.fp, b.what, map[string]any{"input": b.input, "instances": G})
+	}
+}
+
 func main() {
 	logger.SetLogLevel(logger.FatalLevel) // the transform warns on every malformed stamp
 	c := vkit.Start("C13", "exploration")
@@ -242,6 +317,10 @@ func main() {
 		"NIL, random; distinct = (shape class, length); all cases sit on a boundary the generator targets")
 	c.Assume("Go's time.Parse with layouts 2006-01-02T15:04:05.999999999Z07:00 / Z0700 denotes the RFC 3339 instant")
 	c.Assume("the empty string is 'field absent' in the record model: only no-panic and fallback-kept are required for it")
+	if c.Child == "instances" {
+		instancesChild(c)
+		c.Finish()
+	}
 	e := newEngine(c)
 
 	// --- exhaustive: all fractions of 0..6 digits on base instants, Z and a colon offset
@@ -392,8 +471,27 @@ func main() {
 		e.checkOtherOrValid(string(b))
 	}
 
+	// --- several transform instances at once, one per goroutine, as the agent runs them (one per pipeline): in a child process,
+	// because what goes wrong between instances is a runtime fatal error, not a panic
+	res := c.RunChild(vkit.ChildSpec{Mode: "instances", Tag: "instances", Timeout: 10 * time.Minute})
+	if res.Partial != nil {
+		c.Merge(*res.Partial)
+	}
+	if res.Crashed() || res.Partial == nil {
+		if res.TimedOut {
+			c.Inconclusive("child instances hit the wall-clock watchdog at " + res.LastCase)
+		} else {
+			st := res.Stderr
+			if len(st) > 4000 {
+				st = st[:4000]
+			}
+			c.Violation("crash:instances:"+res.CrashSite(), "parseTime transforms of separate pipelines, each used by one goroutine, killed the process at "+
+				res.LastCase+": "+res.CrashSummary(), map[string]any{"case": res.LastCase, "stderr_head": st})
+		}
+	}
 	c.Require("valid_stamps", 1000000)
 	c.Require("notshaped_strings", 1000)
+	c.Require("instances_stamps", 100000)
 	c.Finish()
 	_ = os.Stdout
 }
